@@ -1,4 +1,4 @@
-//@file anchor=lorawan-device/src/async_device/mod.rs
+//@file anchor=lorawan-device/src/async_device/mod.rs cfg=feature="region-eu868"
 // C06-H3 / C04-H7 / C07-H4 / C10-H4: the async front-end with the MAC replaced by contract
 // stubs (ghost counter), a radio that fails at a symbolic call position, and an immediate timer.
 use super::*;
@@ -6,12 +6,22 @@ use core::future::Future;
 use core::pin::pin;
 use core::task::{Context, Poll, Waker};
 
+/// Every harness static carries a unique tag: Kani resolves a *constant* whose bytes equal a
+/// static's initial bytes to that static (rustc interns allocations by content), so writing to a
+/// `static mut FLAG: bool = false` silently changed constants such as `DR::_0` in the code under
+/// test (found on macs_r0_linkadr2, see DESIGN 9.4).  Unique initial content rules this out.
+#[repr(C)]
+pub(crate) struct Uq<T> {
+    pub magic: u64,
+    pub v: T,
+}
+
 // ---- ghost state of the MAC contract (DESIGN 2.4: exactly the facts proved by the MAC harnesses)
-static mut G_FCNT: u32 = 0; // the session's FCntUp
-static mut G_BUILT: u32 = 0; // number of frames built by Mac::send
-static mut G_BUILT_FCNT: u32 = 0; // counter the last frame was built with
-static mut G_RX_CALLS: u32 = 0;
-static mut G_EXPIRED_REPORTED: bool = false;
+static mut G_FCNT: Uq<u32> = Uq { magic: 0x6C727600B8A9E6BE, v: 0 }; // the session's FCntUp
+static mut G_BUILT: Uq<u32> = Uq { magic: 0x6C72760095C36D52, v: 0 }; // number of frames built by Mac::send
+static mut G_BUILT_FCNT: Uq<u32> = Uq { magic: 0x6C727600A67E892A, v: 0 }; // counter the last frame was built with
+static mut G_RX_CALLS: Uq<u32> = Uq { magic: 0x6C727600B81D504B, v: 0 };
+static mut G_EXPIRED_REPORTED: Uq<bool> = Uq { magic: 0x6C7276000ED10A21, v: false };
 
 fn any_rf() -> RfConfig {
     RfConfig {
@@ -31,9 +41,9 @@ fn stub_send<RNG: RngCore, const N: usize>(
     _d: &SendData<'_>,
 ) -> mac::Result<(radio::TxConfig, mac::RxWindows, mac::FcntUp)> {
     unsafe {
-        G_BUILT += 1;
-        G_BUILT_FCNT = G_FCNT;
-        Ok((radio::TxConfig { pw: kani::any(), rf: any_rf() }, mac::RxWindows { rx1: any_rf(), rx2: any_rf() }, G_FCNT))
+        G_BUILT.v += 1;
+        G_BUILT_FCNT.v = G_FCNT.v;
+        Ok((radio::TxConfig { pw: kani::any(), rf: any_rf() }, mac::RxWindows { rx1: any_rf(), rx2: any_rf() }, G_FCNT.v))
     }
 }
 /// contract of Mac::handle_rx in the Joined state (proved by rx_* harnesses): either nothing
@@ -47,13 +57,13 @@ fn stub_handle_rx<const N: usize, const D: usize>(
     _rf: &RfConfig,
 ) -> mac::Response {
     unsafe {
-        G_RX_CALLS += 1;
+        G_RX_CALLS.v += 1;
         if kani::any() {
             mac::Response::NoUpdate
-        } else if G_FCNT == u32::MAX {
+        } else if G_FCNT.v == u32::MAX {
             mac::Response::SessionExpired
         } else {
-            G_FCNT += 1;
+            G_FCNT.v += 1;
             mac::Response::DownlinkReceived(kani::any())
         }
     }
@@ -61,10 +71,10 @@ fn stub_handle_rx<const N: usize, const D: usize>(
 /// contract of Mac::rx2_complete in the Joined state (proved by rx2_complete_step_*)
 fn stub_rx2_complete(_m: &mut Mac) -> mac::Response {
     unsafe {
-        if G_FCNT == u32::MAX {
+        if G_FCNT.v == u32::MAX {
             mac::Response::SessionExpired
         } else {
-            G_FCNT += 1;
+            G_FCNT.v += 1;
             if kani::any() { mac::Response::NoAck } else { mac::Response::RxComplete }
         }
     }
@@ -78,7 +88,7 @@ fn stub_get_rx_delay(_m: &Mac, _f: &Frame, w: &Window) -> u32 {
     }
 }
 fn stub_get_fcnt_up(_m: &Mac) -> Option<mac::FcntUp> {
-    unsafe { Some(G_FCNT) }
+    unsafe { Some(G_FCNT.v) }
 }
 
 // ---- radio / timer models ------------------------------------------------------------------------
@@ -179,9 +189,9 @@ fn async_send_faults() {
     crate::mac::verif_kani_lorawan_device_mac_common::vinit();
     let start: u32 = kani::any();
     unsafe {
-        G_FCNT = start;
-        G_BUILT = 0;
-        G_RX_CALLS = 0;
+        G_FCNT.v = start;
+        G_BUILT.v = 0;
+        G_RX_CALLS.v = 0;
     }
     let radio = MRadio { calls: 0, fail_at: kani::any(), tx_calls: 0, tx_ok: 0 };
     let mut dev: Device<MRadio, MTimer, NoRng, 256, 1> =
@@ -190,15 +200,15 @@ fn async_send_faults() {
     let r = block_on(dev.send(&payload, 1, kani::any()));
     let handed = dev.radio.tx_calls > 0;
     unsafe {
-        crate::vcheck!(G_BUILT == 1, "C06: one frame per send");
+        crate::vcheck!(G_BUILT.v == 1, "C06: one frame per send");
         if handed {
             let expired = matches!(r, Ok(SendResponse::SessionExpired));
-            crate::vcheck!(G_FCNT > start || (start == u32::MAX && expired),
+            crate::vcheck!(G_FCNT.v > start || (start == u32::MAX && expired),
                 "C06: a frame was handed to the radio but FCntUp was not advanced (nor session expiry reported) when send() returned: the next uplink reuses the counter");
         } else {
-            crate::vcheck!(G_FCNT == start, "C06: no counter is consumed when nothing was handed to the radio");
+            crate::vcheck!(G_FCNT.v == start, "C06: no counter is consumed when nothing was handed to the radio");
         }
-        crate::vcheck!(G_FCNT <= start.saturating_add(1), "C06: one send consumes at most one counter value");
+        crate::vcheck!(G_FCNT.v <= start.saturating_add(1), "C06: one send consumes at most one counter value");
         kani::cover!(r.is_ok() && dev.radio.fail_at > 8, "fault-free send completes");
         kani::cover!(r.is_err() && dev.radio.tx_ok == 1, "radio fault after a successful transmission");
     }
